@@ -238,6 +238,58 @@ func doDump(w *World, what string) {
 				}
 			}
 		}
+	case what == "blockpanics":
+		br := blockReachable(w)
+		for f, path := range br {
+			v := w.ViewOf(f)
+			if v == nil || strings.HasPrefix(funcID(f), "x/appchain") {
+				continue
+			}
+			for _, c := range allCalls(v.Decl.Body) {
+				name := ""
+				if id, ok := c.Fun.(*ast.Ident); ok && id.Name == "panic" {
+					name = "panic"
+				} else if n := v.calleeName(c); strings.HasPrefix(n, "Must") {
+					name = n
+				}
+				if name != "" {
+					fmt.Printf("%-28s %-36s %s  <= %s\n", v.pos(c), name, funcID(f), path)
+				}
+			}
+			ast.Inspect(v.Decl.Body, func(n ast.Node) bool {
+				if ta, ok := n.(*ast.TypeAssertExpr); ok && ta.Type != nil {
+					if as, ok := v.parent(ta).(*ast.AssignStmt); !ok || len(as.Lhs) != 2 {
+						if _, isSw := v.parent(ta).(*ast.TypeSwitchStmt); !isSw {
+							fmt.Printf("%-28s %-36s %s\n", v.pos(ta), "unchecked type assertion", funcID(f))
+						}
+					}
+				}
+				return true
+			})
+		}
+	case what == "nilafter":
+		br := blockReachable(w)
+		for f := range br {
+			v := w.ViewOf(f)
+			if v == nil || strings.HasPrefix(funcID(f), "x/appchain") || strings.HasPrefix(funcID(f), "x/evm") {
+				continue
+			}
+			for _, site := range nilAfterErrorSites(v) {
+				fmt.Println(site)
+			}
+		}
+	case what == "divs":
+		br := blockReachable(w)
+		for f := range br {
+			v := w.ViewOf(f)
+			if v == nil || strings.HasPrefix(funcID(f), "x/appchain") || strings.HasPrefix(funcID(f), "x/evm") {
+				continue
+			}
+			for _, d := range divisionSites(v) {
+				ok, why := divisorGuarded(d)
+				fmt.Printf("%-34s %-55s %-12s divisor=%-40s guarded=%v %s\n", v.pos(d.node), funcID(f), d.what, exprString(d.divisor), ok, why)
+			}
+		}
 	case what == "entries":
 		c := catalogue(w)
 		c.print(w)
